@@ -88,6 +88,16 @@ def run(tier):
     nsess = 48 if thorough else 4
     jobs = [("s%d" % i, session(rng, rng.choice([200, 500, 1200]) if thorough else rng.choice([50, 120]), bg=(i % 2 == 1))) for i in range(nsess)]
 
+    # a table that holds NOTHING (everything deleted, then compacted with the oldest table taking part): it is a live table like any other, Close
+    # releases it, and so does every later session that loads it
+    ue = dbgen.Uniq("e")
+    empt = [dbgen.open_step(1, 1 << 30, 1000, mem=1 << 30, bg=False), {"op": "obs"}]
+    empt += [{"op": "put", "k": k, "v": ue.next(), "pad": 5} for k in range(4)] + [{"op": "rotate"}, {"op": "barrier"}]
+    empt += [{"op": "del", "k": k} for k in range(4)] + [{"op": "rotate"}, {"op": "barrier"}, {"op": "obs"}, {"op": "compact"}, {"op": "obs"}, {"op": "close"}, {"op": "obs"}]
+    for _ in range(2):
+        empt += [dbgen.open_step(1, 1 << 30, 1000, mem=1 << 30, bg=False), {"op": "obs"}, {"op": "get", "k": 1}, {"op": "close"}, {"op": "obs"}]
+    jobs.append(("emptytable", empt))
+
     # Close while the last flush takes a long time (the flusher is held for 33 s at its gate): Close must still be waiting
     jobs.append(("slowflush", [dbgen.open_step(2, 1 << 30, 1000, mem=1 << 30, bg=False), {"op": "obs"},
                                {"op": "window", "v": "close-while-flushing", "us": 33000000}, {"op": "obs"}]))
